@@ -159,9 +159,12 @@ class ChannelAuthenticationCapabilities(State):
                 if getattr(rsp.support, function):
                     self.auth_types.append(function)
 
-    def get_max_auth_type(self):
+    def get_max_auth_type(self, supported_auth_types=None):
         for auth_type in ('md5', 'md2', 'straight', 'oem_proprietary', 'none'):
             if auth_type in self.auth_types:
+                if supported_auth_types is not None and \
+                        self._functions[auth_type] not in supported_auth_types:
+                    continue
                 return self._functions[auth_type]
         return None
 
